@@ -39,6 +39,15 @@ def truncation(repo, run):
         run.report("C09.1", DS, fn, "no argsort of the roots: events are not ordered along the direction of integration", text="missing ordering")
         return
     ordname = src(order_st.targets[0])
+    # the ordering key must be direction-normalised time: sign(t_next - t_prev) * roots
+    from ..kind import KindEngine, Seeds
+    ke = KindEngine(fn, Seeds(params={}, names={"t_prev": "T", "t_next": "T", "roots": "Seq(T)"}), disciplines=("DIR",))
+    kkey = ke.kind(order_st.value.args[0]) if order_st.value.args else "U"
+    okk = kkey == "K"
+    run.judged(rid, "ordering key `%s` has kind %s" % (src(order_st.value.args[0]) if order_st.value.args else None, kkey), ok=okk)
+    if not okk:
+        run.report("C09.1", DS, order_st.value, "the roots are ordered by a key of kind %s, not by sign(t_next - t_prev) * root: for backward steps the order is reversed, so the "
+                                                "'first' terminal event is the LAST one met and the events before the true stop are dropped" % (kkey,))
     # any(is_terminal[active]) block
     term_if = None
     for st in ast.walk(fn):
